@@ -211,6 +211,8 @@ def native_geometry(rng, n):
                 g1b, _ = spikeglx.geometry_from_meta(dict(base, snsGeomMap=gmap), return_index=True, sort=sort)   # second derivation from the same map
                 if sorted(i1.tolist()) != list(range(len(sites))):
                     bad.append((vkey, "not a permutation"))
+                if not (np.array_equal(g1["ind"], i1) and np.array_equal(g2["ind"], i2)):
+                    bad.append((vkey, sort, "'ind' is not the on-disk position of each listed site (the returned index)", g1["ind"][:6].tolist(), i1[:6].tolist()))
                 for k in ("x", "y", "row", "col", "shank", "adc", "sample_shift"):
                     if not np.array_equal(g1[k], g2[k]):
                         bad.append((vkey, sort, "encodings differ", k))
